@@ -101,45 +101,77 @@ def orientation_order(rep, prog, rule="C12.volume-integrand"):
     return var
 
 
+def _havoc_exec_until_return(prog, fn):
+    """Symbolic value of the function's (single, top-level) return expression with every loop summarised as 'the locals it writes
+    hold unknown values': tells how the result is assembled from the loop-accumulated quantities."""
+    ev = S.SymEval(prog, fn)
+    for st in fn["body"].get("c", []):
+        if st.get("k") == "ReturnStmt":
+            return ev, ev.ev(st["value"])
+        try:
+            ev.exec_stmt(st)
+        except S.Decline:
+            ev.havoc(st)
+    raise S.Decline("no top-level return statement")
+
+
+def _atom_did(sym_):
+    m = re.match(r"^(.*)#(\d+)(~\d+)?(\..*)?$", sym_.name)
+    return (m.group(1), int(m.group(2))) if m else (None, None)
+
+
+def _check_integrand(rep, prog, fn, qn, did, var):
+    accs = [n for n in walk(fn["body"]) if n.get("k") == "CompoundAssignOperator" and n.get("op") == "+=" and strip(n["c"][0]).get("k") == "DeclRefExpr" and strip(n["c"][0])["ref"].get("did") == did]
+    if len(accs) != 1:
+        raise AnalysisBroken("%s: %d accumulations into %s" % (qn, len(accs), var))
+    n = accs[0]
+    ev = S.SymEval(prog, fn)
+    try:
+        e = sp.expand(sp.sympify(ev.ev(n["c"][1])))
+    except S.Decline as ex:
+        raise AnalysisBroken("%s: %s" % (prog.loc(fn, n), ex))
+    faces = {m.group(1) for s_ in e.free_symbols for m in [re.match(r"^this\.node_lst_\[(.*)\.n[123]_id_\]\.pos_\.d[xyz]_$", s_.name)] if m}
+    if len(faces) != 1:
+        rep.violation("C12.volume-integrand", prog, fn, n, "%s: integrand mixes nodes of %d faces" % (var, len(faces)), "%s accumulates a term that is not built from the three nodes of one face" % qn)
+        return
+    x = face_nodes_positions(ev, faces.pop())
+    if sp.expand(e - triple(x)) == 0:
+        rep.ok("C12.volume-integrand", prog, fn, n, "%s += x1.(x2 x x3) of the loop's own face" % var)
+    else:
+        rep.violation("C12.volume-integrand", prog, fn, n, "%s integrand is not the triple product" % var,
+                      "%s accumulates %s, which differs from the scalar triple product x1.(x2 x x3) of the face's nodes by %s" % (qn, short(n["c"][1], 60), str(sp.expand(e - triple(x)))[:120].replace("this.node_lst_", "")))
+
+
 def volume(rep, prog):
     ov = orientation_order(rep, prog)
-    for qn, var in (("cell::compute_volume", "vol"), ("cell::check_face_normal_orientation", "signed_volume")):
-        if qn.endswith("orientation") and ov == "violated":
-            continue
-        if qn.endswith("orientation") and isinstance(ov, dict):
-            var = ov["name"]
-        fn = prog.fn(qn)
-        acc = [(t, n) for t, n in accumulations(fn) if t.split("#")[0] == var]
-        if len(acc) != 1:
-            raise AnalysisBroken("%s: accumulation into %s not found" % (qn, var))
-        n = acc[0][1]
-        ev = S.SymEval(prog, fn)
-        try:
-            e = sp.expand(sp.sympify(ev.ev(n["c"][1])))
-        except S.Decline as ex:
-            raise AnalysisBroken("%s: %s" % (prog.loc(fn, n), ex))
-        # the face whose nodes are used
-        faces = {m.group(1) for s_ in e.free_symbols for m in [re.match(r"^this\.node_lst_\[(.*)\.n[123]_id_\]\.pos_\.d[xyz]_$", s_.name)] if m}
-        if len(faces) != 1:
-            rep.violation("C12.volume-integrand", prog, fn, n, "%s: integrand mixes nodes of %d faces" % (var, len(faces)), "%s accumulates a term that is not built from the three nodes of one face" % qn)
-            continue
-        x = face_nodes_positions(ev, faces.pop())
-        if sp.expand(e - triple(x)) == 0:
-            rep.ok("C12.volume-integrand", prog, fn, n, "%s += x1.(x2 x x3) of the loop's own face" % var)
-        else:
-            rep.violation("C12.volume-integrand", prog, fn, n, "%s integrand is not the triple product" % var,
-                          "%s accumulates %s, which differs from the scalar triple product x1.(x2 x x3) of the face's nodes by %s" % (qn, short(n["c"][1], 60), str(sp.expand(e - triple(x)))[:120].replace("this.node_lst_", "")))
+    # compute_volume: |sum over the faces of x1.(x2 x x3)| / 6, whatever the names and the statement forms
+    fn = prog.fn("cell::compute_volume")
+    try:
+        ev, ret = _havoc_exec_until_return(prog, fn)
+        ret = sp.sympify(ret)
+    except S.Decline as ex:
+        raise AnalysisBroken("cell::compute_volume: %s" % ex)
+    atoms = [a for a in ret.free_symbols if _atom_did(a)[1] is not None]
+    ok_form = False
+    if len(atoms) == 1:
+        A = atoms[0]
+        ok_form = sp.simplify(ret - sp.Abs(A) / 6) == 0
+    if ok_form:
+        rep.ok("C12.volume-integrand", prog, fn, None, "volume = |sum|/6 (returned value: %s)" % re.sub(r"#\d+(~\d+)?", "", str(ret)))
+        _check_integrand(rep, prog, fn, "cell::compute_volume", _atom_did(atoms[0])[1], _atom_did(atoms[0])[0])
+    else:
+        rep.violation("C12.volume-integrand", prog, fn, None, "volume is not |sum of triple products|/6",
+                      "compute_volume returns %s; it must return the absolute value of the sum accumulated over the faces divided by 6 (the absolute value taken once, of the whole sum)" % re.sub(r"#\d+(~\d+)?", "", str(ret))[:160])
+        for a in atoms[:1]:
+            _check_integrand(rep, prog, fn, "cell::compute_volume", _atom_did(a)[1], _atom_did(a)[0])
+    if ov != "violated":
+        fn2 = prog.fn("cell::check_face_normal_orientation")
+        var = ov if isinstance(ov, dict) else None
+        if var is None:
+            raise AnalysisBroken("check_face_normal_orientation: the quantity whose sign decides the flip was not found")
+        _check_integrand(rep, prog, fn2, "cell::check_face_normal_orientation", var["did"], var["name"])
     fn = prog.fn("cell::compute_volume")
     fi = prog.index(fn)
-    loop = [n for n in walk(fn["body"]) if n.get("k") == "CXXForRangeStmt"][0]
-    after = [s for s in fn["body"]["c"] if fi.order[id(s)] > max(fi.order[id(x)] for x in walk(loop))]
-    div6 = [s for s in after if strip(s).get("k") == "CompoundAssignOperator" and strip(s).get("op") == "/=" and strip(strip(s)["c"][1]).get("v") in ("6", "6.0", "6.")]
-    absd = [s for s in after if strip(s).get("k") == "BinaryOperator" and strip(s).get("op") == "=" and strip(strip(s)["c"][1]).get("callee") in ("std::abs", "abs", "std::fabs", "fabs")]
-    ret = [s for s in after if s.get("k") == "ReturnStmt"]
-    if div6 and absd and ret and render(strip(ret[0]["value"])) == render(strip(div6[0])["c"][0]):
-        rep.ok("C12.volume-integrand", prog, fn, div6[0], "volume = |sum|/6")
-    else:
-        rep.violation("C12.volume-integrand", prog, fn, None, "volume is not |sum of triple products|/6", "compute_volume must divide the accumulated sum by 6 and take the absolute value before returning it")
     # orientation repair: flips by reference when the signed volume is negative
     fn = prog.fn("cell::check_face_normal_orientation")
     fi = prog.index(fn)
@@ -151,7 +183,8 @@ def volume(rep, prog):
             continue
         for cond, pol in fi.guards(f):
             c = strip(cond)
-            if c.get("k") == "BinaryOperator" and c.get("op") == "<" and pol and render(c["c"][0]).split("#")[0] == "signed_volume" and float(strip(c["c"][1]).get("v", "1")) == 0.0:
+            if c.get("k") == "BinaryOperator" and c.get("op") == "<" and pol and isinstance(ov, dict) and strip(c["c"][0]).get("k") == "DeclRefExpr" and strip(c["c"][0])["ref"].get("did") == ov["did"] \
+                    and strip(c["c"][1]).get("k") in ("FloatingLiteral", "IntegerLiteral") and float(strip(c["c"][1]).get("v", "1")) == 0.0:
                 good = True
     if good:
         rep.ok("C12.volume-integrand", prog, fn, None, "if the signed volume is negative every used face is flipped (through a reference)")
@@ -191,6 +224,33 @@ def area_normal(rep, prog):
         raise AnalysisBroken("update_face_normal_and_area: %s" % e)
 
 
+def _used_guard(fi, node):
+    """is node dominated by '<face>.is_used()' being true (directly, negated with an early exit, through an iterator, ...)?"""
+    for cond, pol in fi.guards(node):
+        c = strip(cond)
+        while c.get("k") == "UnaryOperator" and c.get("op") == "!":
+            pol = not pol
+            c = strip(c["c"][0])
+        if c.get("k") == "CXXMemberCallExpr" and c.get("callee") == "face::is_used" and pol:
+            return True
+    return False
+
+
+def _whole_face_list(fn, fi, node):
+    """does the innermost loop around node visit every slot of face_lst_?"""
+    loop = fi.enclosing(node, ("CXXForRangeStmt", "ForStmt", "WhileStmt"))
+    if loop is None:
+        return False
+    if loop.get("k") == "CXXForRangeStmt":
+        return render(loop["range"]).replace("this->", "").split("#")[0] == "face_lst_"
+    if loop.get("k") == "ForStmt":
+        from ..model import expand_text
+        init = " ".join("=" + render(d.get("init") or {}) for d in (loop.get("init") or {}).get("decls", []) or []).replace(" ", "")
+        cond = expand_text(fn, loop.get("cond") or {})
+        return ("face_lst_.begin()" in init and "face_lst_.end()" in cond) or (re.search(r"=0u?l?$|\{0\}|=0[;)]?", init) is not None and "face_lst_.size()" in cond and "<" in cond)
+    return False
+
+
 def centroid(rep, prog):
     fn = prog.fn("cell::compute_centroid")
     fi = prog.index(fn)
@@ -208,44 +268,72 @@ def centroid(rep, prog):
         x = face_nodes_positions(ev, fp)
         A = ev.sym(fp + ".area_")
         if all(sp.expand(v[i] - (x[0][i] + x[1][i] + x[2][i]) / 3 * A) == 0 for i in range(3)):
-            guarded = any(strip(c).get("callee") == "face::is_used" and pol for c, pol in fi.guards(tr[0]))
-            if guarded:
+            if _used_guard(fi, tr[0]) and _whole_face_list(fn, fi, tr[0]):
                 rep.ok("C12.centroid", prog, fn, tr[0], "per used face: centroid += (x1+x2+x3)/3 * area(f)")
             else:
-                rep.violation("C12.centroid", prog, fn, tr[0], "unused faces contribute to the centroid", "the accumulation is not guarded by f.is_used()")
+                rep.violation("C12.centroid", prog, fn, tr[0], "centroid not summed over exactly the used faces", "the accumulation is not guarded by f.is_used() or does not range over the whole face list")
         else:
             rep.violation("C12.centroid", prog, fn, tr[0], "centroid contribution is not (x1+x2+x3)/3*area", "compute_centroid accumulates %s" % short(call_args(tr[0])[0], 80))
     else:
         rep.violation("C12.centroid", prog, fn, tr[0], "centroid contribution mixes faces", "the contribution is not built from one face")
-    loop = [n for n in walk(fn["body"]) if n.get("k") == "CXXForRangeStmt"][0]
-    after = [s for s in fn["body"]["c"] if fi.order[id(s)] > max(fi.order[id(x)] for x in walk(loop))]
-    div = [s for s in after if "area_" in render(strip(s)) and "/" in render(strip(s))]
-    if div and any(s.get("k") == "ReturnStmt" for s in after):
-        rep.ok("C12.centroid", prog, fn, div[0], "divided by the total area area_")
+    # the returned point is the accumulated sum divided by the total area
+    try:
+        ev2, ret = _havoc_exec_until_return(prog, fn)
+        comps = [sp.sympify(c) for c in ev2.record_of(ret).f.values()]
+    except S.Decline as ex:
+        raise AnalysisBroken("cell::compute_centroid: %s" % ex)
+    area = ev2.sym("this.area_")
+    acc = strip(call_obj(tr[0]))
+    good = acc.get("k") == "DeclRefExpr"
+    if good:
+        for c_, ax in zip(comps, ("dx_", "dy_", "dz_")):
+            num = sp.simplify(c_ * area)
+            if not (num.is_Symbol and _atom_did(num)[1] == acc["ref"]["did"] and num.name.endswith("." + ax)):
+                good = False
+    if good:
+        rep.ok("C12.centroid", prog, fn, None, "returns the accumulated sum divided by the total area area_")
     else:
-        rep.violation("C12.centroid", prog, fn, None, "centroid not normalised by area_", "compute_centroid must divide the accumulated sum by area_")
+        rep.violation("C12.centroid", prog, fn, None, "centroid not normalised by area_", "compute_centroid must divide the accumulated sum by area_; it returns %s" % re.sub(r"#\d+(~\d+)?", "", str(comps))[:160])
 
 
 def area_sum(rep, prog):
     fn = prog.fn("cell::compute_area")
+    fi = prog.index(fn)
     lam = [n for n in walk(fn["body"]) if n.get("k") == "LambdaExpr"]
     acc = [n for n in walk(fn["body"]) if n.get("k") == "CallExpr" and n.get("callee") == "std::accumulate"]
     ok = False
+    site = acc[0] if acc else None
     if len(lam) == 1 and acc:
         rets = [n for n in walk(lam[0]["body"]) if n.get("k") == "ReturnStmt"]
         if len(rets) == 1:
             e = strip(rets[0]["value"])
-            txt = render(e)
             p0 = lam[0]["params"][0]["name"]
             if e.get("k") == "BinaryOperator" and e.get("op") == "+" and render(e["c"][0]).split("#")[0] == p0:
                 r = strip(e["c"][1])
                 if r.get("k") == "ConditionalOperator" and strip(r["c"][0]).get("callee") == "face::is_used" and strip(r["c"][1]).get("callee") == "face::get_area" and strip(r["c"][2]).get("k") in ("FloatingLiteral", "IntegerLiteral") and float(strip(r["c"][2])["v"]) == 0.0:
                     init = strip(call_args(acc[0])[2])
                     ok = init.get("k") in ("FloatingLiteral",) and float(init["v"]) == 0.0 and "face_lst_" in render(call_args(acc[0])[0])
-    if ok:
-        rep.ok("C12.area-sum", prog, fn, acc[0], "accumulate over face_lst_ from 0.: sum + (is_used ? get_area : 0)")
     else:
-        rep.violation("C12.area-sum", prog, fn, acc[0] if acc else None, "cell area is not the sum of the used faces' areas", "compute_area must return the sum of f.get_area() over the used faces of face_lst_, starting from 0.")
+        # loop form: total = 0; for every slot of face_lst_: if used: total += area of that face; return total
+        try:
+            ev, ret = _havoc_exec_until_return(prog, fn)
+            ret = sp.sympify(ret)
+        except S.Decline as ex:
+            raise AnalysisBroken("cell::compute_area: %s" % ex)
+        if ret.is_Symbol and _atom_did(ret)[1] is not None:
+            did = _atom_did(ret)[1]
+            adds = [n for n in walk(fn["body"]) if n.get("k") == "CompoundAssignOperator" and n.get("op") == "+=" and strip(n["c"][0]).get("k") == "DeclRefExpr" and strip(n["c"][0])["ref"].get("did") == did]
+            decl = [n for n in walk(fn["body"]) if n.get("k") == "Var" and n.get("did") == did and isinstance(n.get("init"), dict)]
+            zero = bool(decl) and strip(decl[0]["init"]).get("k") in ("FloatingLiteral", "IntegerLiteral") and float(strip(decl[0]["init"])["v"]) == 0.0
+            if len(adds) == 1 and zero:
+                site = adds[0]
+                r = strip(adds[0]["c"][1])
+                is_area = (r.get("k") == "CXXMemberCallExpr" and r.get("callee") == "face::get_area") or (r.get("k") == "MemberExpr" and r["ref"].get("qn") == "face::area_")
+                ok = is_area and _used_guard(fi, adds[0]) and _whole_face_list(fn, fi, adds[0])
+    if ok:
+        rep.ok("C12.area-sum", prog, fn, site, "cell area = sum over every slot of face_lst_ of (is_used ? area : 0), starting from 0")
+    else:
+        rep.violation("C12.area-sum", prog, fn, site, "cell area is not the sum of the used faces' areas", "compute_area must return the sum of f.get_area() over the used faces of face_lst_, starting from 0.")
 
 
 def aabb(rep, prog):
@@ -258,32 +346,39 @@ def aabb(rep, prog):
             for i, b in enumerate(n.get("bindings", [])):
                 axis[b["did"]] = "xyz"[i]
     role = {}   # did of running local -> (kind, axis)
-    for n in walk(fn["body"]):
-        if n.get("k") != "IfStmt":
-            continue
-        c = strip(n["cond"])
-        th = n["then"]
-        sts = th.get("c", []) if th.get("k") == "CompoundStmt" else [th]
-        if c.get("k") != "BinaryOperator" or c.get("op") not in ("<", ">") or len(sts) != 1:
-            continue
-        a = strip(sts[0])
-        l, r = strip(c["c"][0]), strip(c["c"][1])
-        if a.get("k") == "BinaryOperator" and a.get("op") == "=" and l.get("k") == "DeclRefExpr" and r.get("k") == "DeclRefExpr" and l["ref"]["did"] in axis:
-            tl, tr_ = strip(a["c"][0]), strip(a["c"][1])
-            kind = "min" if c["op"] == "<" else "max"
-            good = tl.get("k") == "DeclRefExpr" and tl["ref"]["did"] == r["ref"]["did"] and tr_.get("k") == "DeclRefExpr" and tr_["ref"]["did"] == l["ref"]["did"]
-            gs = fi.guards(n)
-            used = any(strip(cc).get("callee") == "node::is_used" and pol for cc, pol in gs)
-            only_used = all(strip(cc).get("callee") == "node::is_used" and pol for cc, pol in gs)
-            if good and used and not only_used:
-                rep.violation("C12.aabb", prog, fn, n, "aabb update of %s_%s is conditional on another test" % (kind, axis[l["ref"]["did"]]),
-                              "%s is only evaluated when %s: each of the six running extrema must be updated for every used node independently (e.g. an 'else if' chain skips the maximum test for the node that sets the minimum, so the box is not tight for some node orders)" % (short(n["cond"], 50), "; ".join(("not " if not pol else "") + short(cc, 40) for cc, pol in gs if strip(cc).get("callee") != "node::is_used")))
-                role[r["ref"]["did"]] = (kind, axis[l["ref"]["did"]])
-            elif good and used:
-                role[r["ref"]["did"]] = (kind, axis[l["ref"]["did"]])
-                rep.ok("C12.aabb", prog, fn, n, "running %s of axis %s over used nodes" % (kind, axis[l["ref"]["did"]]))
+    from .. import lints
+    def is_used_only(gs):
+        used = other = False
+        for cc, pol in gs:
+            c_ = strip(cc)
+            while c_.get("k") == "UnaryOperator" and c_.get("op") == "!":
+                pol = not pol
+                c_ = strip(c_["c"][0])
+            if c_.get("k") == "CXXMemberCallExpr" and c_.get("callee") == "node::is_used" and pol:
+                used = True
             else:
-                rep.violation("C12.aabb", prog, fn, n, "aabb update is not a running min/max of one axis", "%s: expected 'if(coord < m) m = coord' (or >) on the same variables, under n.is_used()" % short(n["cond"], 60))
+                other = True
+        return used, other
+    for n, tgt, val, kind in lints.extremum_updates(fn):
+        t_, v_ = strip(tgt), strip(val)
+        if t_.get("k") != "DeclRefExpr":
+            continue
+        ax = axis.get(v_["ref"]["did"]) if v_.get("k") == "DeclRefExpr" else None
+        if ax is None and v_.get("k") == "CXXMemberCallExpr" and v_.get("callee") in ("vec3::dx", "vec3::dy", "vec3::dz"):
+            ax = v_["callee"][-1]
+        if ax is None:
+            continue
+        gs = [(cc, pol) for cc, pol in fi.guards(n)]
+        used, other = is_used_only(gs)
+        if used and other:
+            rep.violation("C12.aabb", prog, fn, n, "aabb update of %s_%s is conditional on another test" % (kind, ax),
+                          "%s is only evaluated under an additional condition: each of the six running extrema must be updated for every used node independently (e.g. an 'else if' chain skips the maximum test for the node that sets the minimum, so the box is not tight for some node orders)" % short(n, 60))
+            role[t_["ref"]["did"]] = (kind, ax)
+        elif used:
+            role[t_["ref"]["did"]] = (kind, ax)
+            rep.ok("C12.aabb", prog, fn, n, "running %s of axis %s over used nodes" % (kind, ax))
+        else:
+            rep.violation("C12.aabb", prog, fn, n, "aabb update not restricted to the used nodes", "%s: the running %s of axis %s is not taken under n.is_used(): free node slots (position reset to the origin) enter the box" % (short(n, 60), kind, ax))
     rets = [n for n in walk(fn["body"]) if n.get("k") == "ReturnStmt"]
     items = [x for x in walk(rets[0]["value"]) if x.get("k") == "DeclRefExpr" and x["ref"].get("dk") == "Var"] if rets else []
     got = [role.get(x["ref"]["did"]) for x in items]
@@ -430,42 +525,136 @@ def eigen_layout(rep, prog):
     ret = [render(r.get("value") or {}) for r in walk(ed["body"]) if r.get("k") == "ReturnStmt"]
     if T is None or vals is None or not ret or mvar not in ret[0]:
         raise AnalysisBroken("eigen_decomposition: matrix / eigenvalue vector construction not recognised")
-    # (e) consumer
+    # (e) consumer: interpret the selection logic of get_cell_longest_axis for every weak ordering of (|l0|,|l1|,|l2|)
+    import itertools
     la = prog.fn("cell::get_cell_longest_axis")
-    uses = []
+    comp = {"vec3::dx": 0, "vec3::dy": 1, "vec3::dz": 2}
+    # the structured binding (eigen_values, eigen_vectors) of the decomposition
+    evals_did = evecs_did = None
     for n in walk(la["body"]):
-        if is_call(n) and n.get("callee") == "mat33::get_col":
-            k = strip(call_args(n)[0]).get("v")
-            uses.append((n, int(k) if k is not None and str(k).isdigit() else None))
-    if len(uses) != 3:
-        raise AnalysisBroken("get_cell_longest_axis: %d get_col calls" % len(uses))
-    fi = prog.index(la)
-    comp = {"dx": 0, "dy": 1, "dz": 2}
-    seen = []
-    for n, k in uses:
-        # dominant component of the guard: the accessor on the left of every '>' of the enclosing if's condition
-        iff = None
-        for p_, slot, ch in fi.ancestors(n):
-            if p_.get("k") == "IfStmt":
-                iff, sl = p_, slot
-                break
-        dom = None
-        if iff is not None and sl == "then":
-            lefts = set(re.findall(r"abs\(eigen_values\.(d[xyz])\(\)\)>", render(iff["cond"]).replace(" ", "").replace("std::", "")))
-            rights = set(re.findall(r">abs\(eigen_values\.(d[xyz])\(\)\)", render(iff["cond"]).replace(" ", "").replace("std::", "")))
-            if len(lefts) == 1 and len(rights) == 2 and not (lefts & rights):
-                dom = comp[next(iter(lefts))]
-        elif iff is not None and sl == "else":
-            rest = [c_ for c_ in range(3) if c_ not in seen]
-            dom = rest[0] if len(rest) == 1 else None
-        if dom is None or k is None:
-            raise AnalysisBroken("get_cell_longest_axis: guard of get_col(%s) not recognised" % k)
-        seen.append(dom)
-        ev_index = vals[dom]
-        vec = [T[(r, k)] for r in range(3)]
-        want = [(ev_index, j) for j in range(3)]
-        if vec == want:
-            rep.ok("C12.eigen-layout", prog, la, n, "largest |eigenvalue| in component %d (= eval[%d]) -> get_col(%d) = (evec[%d][0], evec[%d][1], evec[%d][2])" % (dom, ev_index, k, ev_index, ev_index, ev_index))
+        if n.get("k") == "Decomposition" and "eigen_decomposition" in render(n.get("init") or {}):
+            b = n.get("bindings", [])
+            if len(b) == 2:
+                evals_did, evecs_did = b[0]["did"], b[1]["did"]
+    if evals_did is None:
+        raise AnalysisBroken("get_cell_longest_axis: result of eigen_decomposition is not bound by a structured binding")
+
+    class _Ret(Exception):
+        def __init__(self, v):
+            self.v = v
+
+    def ev_(e, env, ranks):
+        e = strip(e)
+        k = e.get("k")
+        if k in ("ParenExpr", "ExprWithCleanups", "MaterializeTemporaryExpr", "CXXBindTemporaryExpr") or (k in ("ImplicitCastExpr", "CXXStaticCastExpr", "CXXFunctionalCastExpr") and e.get("c")):
+            return ev_(e["c"][0], env, ranks)
+        if k == "IntegerLiteral":
+            return int(e["v"])
+        if k == "CXXBoolLiteralExpr":
+            return bool(e["v"])
+        if k == "DeclRefExpr":
+            return env.get(e["ref"].get("did"))
+        if k == "CallExpr" and e.get("callee") in ("std::abs", "abs", "std::fabs", "fabs"):
+            return ev_(call_args(e)[0], env, ranks)
+        if k == "CXXMemberCallExpr" and e.get("callee") in comp:
+            o = strip(call_obj(e))
+            if o.get("k") == "DeclRefExpr" and o["ref"].get("did") == evals_did:
+                return ranks[comp[e["callee"]]]
+            return None
+        if k == "CXXMemberCallExpr" and e.get("callee") == "mat33::get_col":
+            o = strip(call_obj(e))
+            if o.get("k") == "DeclRefExpr" and o["ref"].get("did") == evecs_did:
+                kk = ev_(call_args(e)[0], env, ranks)
+                return ("col", kk)
+            return None
+        if k == "CXXMemberCallExpr" and e.get("callee") == "vec3::normalize":
+            return ev_(call_obj(e), env, ranks)
+        if k in ("CXXConstructExpr",) and len(e.get("c", [])) == 1:
+            return ev_(e["c"][0], env, ranks)
+        if k == "UnaryOperator" and e.get("op") == "!":
+            v = ev_(e["c"][0], env, ranks)
+            return None if v is None else (not v)
+        if k == "ConditionalOperator":
+            c = ev_(e["c"][0], env, ranks)
+            return None if c is None else ev_(e["c"][1] if c else e["c"][2], env, ranks)
+        if k == "BinaryOperator":
+            op = e.get("op")
+            a, b = ev_(e["c"][0], env, ranks), ev_(e["c"][1], env, ranks)
+            if op == "&&":
+                return False if (a is False or b is False) else (None if a is None or b is None else True)
+            if op == "||":
+                return True if (a is True or b is True) else (None if a is None or b is None else False)
+            if a is None or b is None:
+                return None
+            try:
+                return {">": a > b, "<": a < b, ">=": a >= b, "<=": a <= b, "==": a == b, "!=": a != b}.get(op)
+            except TypeError:
+                return None
+        return None
+
+    def run_(st, env, ranks):
+        k = st.get("k")
+        if k == "CompoundStmt":
+            for c in st.get("c", []):
+                run_(c, env, ranks)
+        elif k == "DeclStmt":
+            for d in st.get("decls", []):
+                if d.get("k") == "Var" and isinstance(d.get("init"), dict):
+                    env[d["did"]] = ev_(d["init"], env, ranks)
+        elif k == "IfStmt":
+            c = ev_(st["cond"], env, ranks)
+            if c is None:
+                raise S.Decline("condition %s cannot be interpreted" % short(st["cond"], 50))
+            if c:
+                run_(st["then"], env, ranks)
+            elif isinstance(st.get("else"), dict):
+                run_(st["else"], env, ranks)
+        elif k == "ReturnStmt":
+            raise _Ret(ev_(st["value"], env, ranks))
         else:
-            rep.violation("C12.eigen-layout", prog, la, n, "axis for eigenvalue %d is not eigenvector %d" % (ev_index, ev_index),
-                          "get_cell_longest_axis: when eval[%d] dominates, get_col(%d) of the matrix built by eigen_decomposition is (%s), not the eigenvector (evec[%d][0..2]) of that eigenvalue: constructor/transpose/get_col conventions no longer agree, the longest axis does not follow the cell" % (ev_index, k, ", ".join("evec[%d][%d]" % v for v in vec), ev_index))
+            e = strip(st)
+            if e.get("k") in ("BinaryOperator", "CXXOperatorCallExpr") and e.get("op") == "=":
+                l = strip(e["c"][0] if e["k"] == "BinaryOperator" else e["c"][1])
+                r = e["c"][1] if e["k"] == "BinaryOperator" else e["c"][2]
+                if l.get("k") == "DeclRefExpr":
+                    env[l["ref"]["did"]] = ev_(r, env, ranks)
+
+    body = la["body"].get("c", [])
+    start = 0
+    for i_, st in enumerate(body):
+        if any(x.get("k") == "Decomposition" and x.get("bindings") and x["bindings"][0]["did"] == evals_did for x in walk(st)):
+            start = i_ + 1
+    n_ok = 0
+    bad = None
+    for ranks in itertools.product(range(3), repeat=3):
+        mx = max(ranks)
+        if list(ranks).count(mx) != 1:
+            continue      # no unique dominant eigenvalue: any axis of the dominant eigenspace is acceptable
+        dom = list(ranks).index(mx)
+        env = {}
+        try:
+            for st in body[start:]:
+                run_(st, env, ranks)
+            raise S.Decline("no return reached")
+        except _Ret as r_:
+            res = r_.v
+        except S.Decline as ex:
+            raise AnalysisBroken("get_cell_longest_axis: %s" % ex)
+        if not (isinstance(res, tuple) and res[0] == "col" and res[1] in (0, 1, 2)):
+            raise AnalysisBroken("get_cell_longest_axis: the returned axis is not a column of the eigenvector matrix (%s)" % (res,))
+        kcol = res[1]
+        vec = [T[(r, kcol)] for r in range(3)]
+        want = [(vals[dom], j) for j in range(3)]
+        if vec == want:
+            n_ok += 1
+        elif bad is None:
+            bad = (ranks, dom, kcol, vec)
+    site = [n for n in walk(la["body"]) if is_call(n) and n.get("callee") == "mat33::get_col"]
+    if bad is None and n_ok:
+        for d_ in range(3):
+            rep.ok("C12.eigen-layout", prog, la, site[min(d_, len(site) - 1)] if site else None, "when |eigenvalue %d| dominates, the returned axis is the eigenvector (evec[%d][0..2]) of that eigenvalue (all %d orderings with a unique maximum interpreted)" % (d_, vals[d_], n_ok))
+    else:
+        ranks, dom, kcol, vec = bad
+        rep.violation("C12.eigen-layout", prog, la, site[0] if site else None, "axis for eigenvalue %d is not eigenvector %d" % (vals[dom], vals[dom]),
+                      "get_cell_longest_axis: when eval[%d] dominates (ordering %s of the magnitudes), get_col(%d) of the matrix built by eigen_decomposition is (%s), not the eigenvector (evec[%d][0..2]) of that eigenvalue: constructor/transpose/get_col conventions no longer agree, the longest axis does not follow the cell"
+                      % (vals[dom], ranks, kcol, ", ".join("evec[%d][%d]" % v for v in vec), vals[dom]))
